@@ -8,7 +8,7 @@ CONSTANTS
  MaxFaults = 4
  MaxSeeks = 1
  Conc = 8
- FixLeak = FALSE
+ FixLeak = TRUE
  PrioAsc = TRUE
  Rs = {1, 2}
  Prios = {0, 1}
@@ -17,5 +17,5 @@ CONSTANTS
  Confs <- AllConfs
 INIT MCInit
 NEXT MCNext
-INVARIANTS Ok RetryBound TypeOK
+INVARIANTS Ok RetryBound TypeOK NoThrottleBlock
 CHECK_DEADLOCK FALSE
